@@ -817,4 +817,394 @@ theorem inv_step (env : Env) (henv : EnvOK env) (cell0 : Nat → Nat) (opts0 : N
               · simp only [soloRun_snoc, soloStep, hsolo, hhold, Bool.false_eq_true, if_false]
               · intro hcl; simp at hcl
 
+theorem inv_exec (env : Env) (henv : EnvOK env) (cell0 : Nat → Nat) (opts0 : Nat → Option Nat) (sched : List (Nat × Nat)) :
+    ∀ cfg, Inv env cell0 opts0 cfg → Inv env cell0 opts0 (exec env cfg sched) := by
+  induction sched with
+  | nil => intro cfg h; exact h
+  | cons e rest ih => intro cfg h; exact ih _ (inv_step env henv cell0 opts0 cfg e.1 e.2 h)
+
+/-! ### a thread never changes its program -/
+
+def progsOf (cfg : Cfg) : List (List Act) := cfg.threads.map (fun t => t.done ++ t.todo)
+
+theorem progsOf_step (env : Env) (cfg : Cfg) (i c : Nat) : progsOf (stepThread env cfg i c) = progsOf cfg := by
+  cases ht : cfg.threads[i]? with
+  | none => rw [stepThread_none env cfg i c ht]
+  | some t =>
+    cases htodo : t.todo with
+    | nil => rw [stepThread_nil env cfg i c t ht htodo]
+    | cons a rest =>
+      rw [stepThread_cons env cfg i c t a rest ht htodo]
+      unfold progsOf
+      have hi : i < cfg.threads.length := by
+        rcases Nat.lt_or_ge i cfg.threads.length with h | h
+        · exact h
+        · rw [List.getElem?_eq_none h] at ht; cases ht
+      apply List.ext_getElem?
+      intro j
+      simp only [List.getElem?_map, List.getElem?_set]
+      by_cases hij : i = j
+      · subst hij
+        simp only [hi, if_true, ht, Option.map]
+        by_cases hb : (step env i a c t.priv cfg.sh).2.2 = true
+        · simp [hb, htodo]
+        · simp [hb]
+      · simp [hij]
+
+theorem progsOf_exec (env : Env) (sched : List (Nat × Nat)) : ∀ cfg, progsOf (exec env cfg sched) = progsOf cfg := by
+  induction sched with
+  | nil => intro cfg; rfl
+  | cons e rest ih => intro cfg; simp only [exec, List.foldl] at *; rw [ih, progsOf_step]
+
+theorem progsOf_init (progs : List (List Act)) (sh0 : Sh) : progsOf (initCfg progs sh0) = progs := by
+  simp [progsOf, initCfg, List.map_map, Function.comp_def]
+
+/-- a finished thread has executed exactly its program -/
+theorem finished_done (env : Env) (progs : List (List Act)) (sh0 : Sh) (sched : List (Nat × Nat)) (i : Nat) (t : Thread)
+    (prog : List Act) (ht : (exec env (initCfg progs sh0) sched).threads[i]? = some t) (hp : progs[i]? = some prog)
+    (hfin : t.todo = []) : t.done = prog := by
+  have h := progsOf_exec env sched (initCfg progs sh0)
+  rw [progsOf_init] at h
+  have h2 : (progsOf (exec env (initCfg progs sh0) sched))[i]? = some (t.done ++ t.todo) := by
+    simp [progsOf, List.getElem?_map, ht]
+  rw [h, hp, hfin] at h2
+  simpa using (Option.some.inj h2).symm
+
+/-! ### the operation alone really runs to its end: `soloRun` is what `exec` does with a single thread -/
+
+def headCost (env : Env) (sh : Sh) : Act → Nat
+  | .onceDo o => match sh.once o with
+    | .idle => closureLen env o + 3
+    | .running _ k => closureLen env o + 2 - k
+    | .done => 1
+  | _ => 1
+
+/-- scheduled steps still needed by a thread that runs alone -/
+def mu (env : Env) (sh : Sh) : List Act → Nat
+  | [] => 0
+  | a :: rest => headCost env sh a + (rest.map (actCost env)).sum
+
+theorem headCost_le (env : Env) (sh : Sh) (a : Act) : headCost env sh a ≤ actCost env a := by
+  cases a <;> simp [headCost, actCost]
+  rename_i o
+  cases sh.once o <;> simp <;> omega
+
+theorem headCost_pos (env : Env) (sh : Sh) (a : Act) (h : ∀ o j k, sh.once o = .running j k → k ≤ closureLen env o) :
+    0 < headCost env sh a := by
+  cases a <;> simp [headCost]
+  rename_i o
+  cases hs : sh.once o with
+  | idle => simp
+  | running j k => have := h o j k hs; simp; omega
+  | done => simp
+
+theorem mu_le (env : Env) (sh : Sh) (l : List Act) : mu env sh l ≤ soloFuel env l := by
+  cases l with
+  | nil => simp [mu, soloFuel]
+  | cons a rest => simp only [mu, soloFuel, List.map_cons, List.sum_cons]; have := headCost_le env sh a; omega
+
+theorem step_popped (env : Env) (i : Nat) (a : Act) (c : Nat) (p : Priv) (sh : Sh) (h : ∀ o, a ≠ .onceDo o) :
+    (step env i a c p sh).2.2 = true := by
+  cases a with
+  | onceDo o => exact absurd rfl (h o)
+  | get q => simp only [step]; split <;> (try split) <;> rfl
+  | use vals => simp only [step]; split <;> rfl
+  | readObj => simp only [step]; split <;> rfl
+  | reset => simp only [step]; split <;> rfl
+  | put q => simp only [step]; split <;> rfl
+  | putAgain q => simp only [step]; split <;> rfl
+  | _ => rfl
+
+theorem step_once_eq (env : Env) (i : Nat) (a : Act) (c : Nat) (p : Priv) (sh : Sh) (h : ∀ o, a ≠ .onceDo o) :
+    (step env i a c p sh).2.1.once = sh.once := by
+  cases a with
+  | onceDo o => exact absurd rfl (h o)
+  | get q => simp only [step]; split <;> (try split) <;> rfl
+  | use vals => simp only [step]; split <;> rfl
+  | readObj => simp only [step]; split <;> rfl
+  | reset => simp only [step]; split <;> rfl
+  | put q => simp only [step]; split <;> rfl
+  | putAgain q => simp only [step]; split <;> rfl
+  | _ => rfl
+
+/-- every `Once` closure in flight is run by thread 0 (single-thread configurations) -/
+def SoloOwn (sh : Sh) : Prop := ∀ o j k, sh.once o = .running j k → j = 0
+
+theorem solo_step (env : Env) (henv : EnvOK env) (cell0 : Nat → Nat) (opts0 : Nat → Option Nat) (cfg : Cfg) (t : Thread) (c : Nat)
+    (hthr : cfg.threads = [t]) (inv : Inv env cell0 opts0 cfg) (hown : SoloOwn cfg.sh) (hne : t.todo ≠ []) :
+    ∃ t', (stepThread env cfg 0 c).threads = [t'] ∧ SoloOwn (stepThread env cfg 0 c).sh ∧
+      mu env (stepThread env cfg 0 c).sh t'.todo < mu env cfg.sh t.todo := by
+  have ht : cfg.threads[0]? = some t := by simp [hthr]
+  have hk : ∀ o j k, cfg.sh.once o = .running j k → k ≤ closureLen env o := by
+    intro o j k hs
+    have := inv.once o
+    unfold OnceOK at this
+    simp only [hs] at this
+    exact this.1
+  cases htodo : t.todo with
+  | nil => exact absurd htodo hne
+  | cons a rest =>
+    rw [stepThread_cons env cfg 0 c t a rest ht htodo, hthr]
+    simp only [List.set_cons_zero]
+    -- popped actions: the rest costs at most its static bound
+    have popped : ∀ sh', (step env 0 a c t.priv cfg.sh).2.2 = true → headCost env cfg.sh a ≥ 1 →
+        mu env sh' rest < mu env cfg.sh (a :: rest) := by
+      intro sh' _ hpos
+      have := mu_le env sh' rest
+      simp only [mu, soloFuel] at *
+      omega
+    have hpos := headCost_pos env cfg.sh a hk
+    have other : ∀ a', a' = a → (∀ o, a' ≠ .onceDo o) →
+        ∃ t', [if (step env 0 a c t.priv cfg.sh).2.2 = true then
+                ({ priv := (step env 0 a c t.priv cfg.sh).1, done := t.done ++ [a], todo := rest } : Thread)
+              else { t with priv := (step env 0 a c t.priv cfg.sh).1 }] = [t'] ∧
+          SoloOwn (step env 0 a c t.priv cfg.sh).2.1 ∧
+          mu env (step env 0 a c t.priv cfg.sh).2.1 t'.todo < mu env cfg.sh (a :: rest) := by
+      intro a' ha' hno
+      subst ha'
+      have hp := step_popped env 0 a' c t.priv cfg.sh hno
+      refine ⟨_, rfl, ?_, ?_⟩
+      · unfold SoloOwn; rw [step_once_eq env 0 a' c t.priv cfg.sh hno]; exact hown
+      · simp only [hp, if_true]; exact popped _ hp hpos
+    cases a with
+    | onceDo o =>
+      cases hs : cfg.sh.once o with
+      | idle =>
+        rw [step_onceDo_idle env 0 o c t.priv cfg.sh hs]
+        refine ⟨_, rfl, ?_, ?_⟩
+        · intro o' j k h'
+          by_cases he : o' = o
+          · subst he; simp at h'; exact h'.1.symm
+          · simp only [upd_other _ _ _ _ he] at h'; exact hown o' j k h'
+        · simp [htodo, mu, headCost, hs]
+      | running j k =>
+        have hj : j = 0 := hown o j k hs
+        subst hj
+        have hkl := hk o 0 k hs
+        by_cases hlt : k < closureLen env o
+        · rw [step_onceDo_own_step env 0 o c k t.priv cfg.sh hs hlt]
+          refine ⟨_, rfl, ?_, ?_⟩
+          · intro o' j k' h'
+            by_cases he : o' = o
+            · subst he; simp at h'; exact h'.1.symm
+            · simp only [upd_other _ _ _ _ he] at h'; exact hown o' j k' h'
+          · simp [htodo, mu, headCost, hs]; omega
+        · rw [step_onceDo_own_end env 0 o c k t.priv cfg.sh hs hlt]
+          refine ⟨_, rfl, ?_, ?_⟩
+          · intro o' j k' h'
+            by_cases he : o' = o
+            · subst he; simp at h'
+            · simp only [upd_other _ _ _ _ he] at h'; exact hown o' j k' h'
+          · simp [htodo, mu, headCost, hs]; omega
+      | done =>
+        rw [step_onceDo_done env 0 o c t.priv cfg.sh hs]
+        refine ⟨_, rfl, hown, ?_⟩
+        simp only [if_true]
+        exact popped _ (by rw [step_onceDo_done env 0 o c t.priv cfg.sh hs]) hpos
+    | read r => exact other _ rfl (by intro o h; cases h)
+    | write r v => exact other _ rfl (by intro o h; cases h)
+    | get q => exact other _ rfl (by intro o h; cases h)
+    | use vals => exact other _ rfl (by intro o h; cases h)
+    | readObj => exact other _ rfl (by intro o h; cases h)
+    | reset => exact other _ rfl (by intro o h; cases h)
+    | put q => exact other _ rfl (by intro o h; cases h)
+    | putAgain q => exact other _ rfl (by intro o h; cases h)
+    | optRead o => exact other _ rfl (by intro o h; cases h)
+    | optWrite o v => exact other _ rfl (by intro o h; cases h)
+    | loc v => exact other _ rfl (by intro o h; cases h)
+
+theorem exec_nil_todo (env : Env) (cs : List Nat) : ∀ (cfg : Cfg) (t : Thread), cfg.threads = [t] → t.todo = [] →
+    exec env cfg (cs.map (fun c => (0, c))) = cfg := by
+  induction cs with
+  | nil => intro cfg t _ _; rfl
+  | cons c rest ih =>
+    intro cfg t ht hn
+    have h0 : cfg.threads[0]? = some t := by simp [ht]
+    simp only [List.map_cons, exec, List.foldl]
+    rw [stepThread_nil env cfg 0 c t h0 hn]
+    exact ih cfg t ht hn
+
+/-- a single thread scheduled `mu` times (or more) has finished, whatever `Get` is given -/
+theorem solo_finishes (env : Env) (henv : EnvOK env) (cell0 : Nat → Nat) (opts0 : Nat → Option Nat) (cs : List Nat) :
+    ∀ (cfg : Cfg) (t : Thread), cfg.threads = [t] → Inv env cell0 opts0 cfg → SoloOwn cfg.sh →
+      mu env cfg.sh t.todo ≤ cs.length →
+      ∃ t', (exec env cfg (cs.map (fun c => (0, c)))).threads = [t'] ∧ t'.todo = [] := by
+  induction cs with
+  | nil =>
+    intro cfg t ht inv _ hmu
+    refine ⟨t, ht, ?_⟩
+    cases htodo : t.todo with
+    | nil => rfl
+    | cons a rest =>
+      exfalso
+      have hk : ∀ o j k, cfg.sh.once o = .running j k → k ≤ closureLen env o := by
+        intro o j k hs
+        have := inv.once o
+        unfold OnceOK at this
+        simp only [hs] at this
+        exact this.1
+      have := headCost_pos env cfg.sh a hk
+      simp [htodo, mu] at hmu
+      omega
+  | cons c rest ih =>
+    intro cfg t ht inv hown hmu
+    by_cases hne : t.todo = []
+    · refine ⟨t, ?_, hne⟩
+      rw [exec_nil_todo env (c :: rest) cfg t ht hne]; exact ht
+    · obtain ⟨t', ht', hown', hlt⟩ := solo_step env henv cell0 opts0 cfg t c ht inv hown hne
+      simp only [List.map_cons, exec, List.foldl]
+      exact ih _ t' ht' (inv_step env henv cell0 opts0 cfg 0 c inv) hown' (by simp at hmu; omega)
+
+/-! ### sequences of well-formed, balanced programs -/
+
+/-- well formed and balanced: ends holding nothing -/
+def wfBal (env : Env) (p : List Act) : Bool :=
+  match wfRun env p initWf with
+  | some w => !w.holding && !w.clean
+  | none => false
+
+def WfLe (w0 w1 : WfSt) : Prop := w0.holding = w1.holding ∧ w0.clean = w1.clean ∧ ∀ o, o ∈ w0.seen → o ∈ w1.seen
+
+theorem wfStep_mono (env : Env) (a : Act) (w0 w1 w0' : WfSt) (h : wfStep env a w0 = some w0') (hle : WfLe w0 w1) :
+    ∃ w1', wfStep env a w1 = some w1' ∧ WfLe w0' w1' := by
+  obtain ⟨hh, hc, hs⟩ := hle
+  cases a with
+  | read r =>
+    obtain ⟨rfl, hr, hsn⟩ := wfStep_read h
+    refine ⟨w1, ?_, hh, hc, hs⟩
+    simp only [wfStep, hr, Bool.false_eq_true, if_false]
+    cases hon : env.onceOf r with
+    | none => rfl
+    | some o =>
+      have : o ∈ w1.seen := hs o (hsn o hon)
+      simp [this]
+  | write r v => simp [wfStep] at h
+  | putAgain q => simp [wfStep] at h
+  | optWrite o v => simp [wfStep] at h
+  | onceDo o =>
+    have := wfStep_onceDo h; subst this
+    refine ⟨{ w1 with seen := o :: w1.seen }, by simp [wfStep], hh, hc, ?_⟩
+    intro o' ho'
+    rcases List.mem_cons.mp ho' with e | e
+    · simp [e]
+    · exact List.mem_cons_of_mem _ (hs o' e)
+  | get q =>
+    obtain ⟨h0, rfl⟩ := wfStep_get h
+    refine ⟨{ w1 with holding := true, clean := false }, ?_, rfl, rfl, hs⟩
+    simp [wfStep, ← hh, h0]
+  | use vals =>
+    obtain ⟨h0, rfl⟩ := wfStep_use h
+    exact ⟨w1, by simp [wfStep, ← hh, h0], hh, hc, hs⟩
+  | readObj =>
+    obtain ⟨h0, h1, rfl⟩ := wfStep_readObj h
+    exact ⟨w1, by simp [wfStep, ← hh, ← hc, h0, h1], hh, hc, hs⟩
+  | reset =>
+    obtain ⟨h0, rfl⟩ := wfStep_reset h
+    exact ⟨{ w1 with clean := true }, by simp [wfStep, ← hh, h0], hh, rfl, hs⟩
+  | put q =>
+    obtain ⟨h0, rfl⟩ := wfStep_put h
+    exact ⟨{ w1 with holding := false, clean := false }, by simp [wfStep, ← hh, h0], rfl, rfl, hs⟩
+  | optRead o =>
+    have : w0' = w0 := by simp [wfStep] at h; exact h.symm
+    subst this
+    exact ⟨w1, by simp [wfStep], hh, hc, hs⟩
+  | loc v =>
+    have : w0' = w0 := by simp [wfStep] at h; exact h.symm
+    subst this
+    exact ⟨w1, by simp [wfStep], hh, hc, hs⟩
+
+theorem wfRun_mono (env : Env) (p : List Act) : ∀ (w0 w1 w0' : WfSt), wfRun env p w0 = some w0' → WfLe w0 w1 →
+    ∃ w1', wfRun env p w1 = some w1' ∧ WfLe w0' w1' := by
+  induction p with
+  | nil => intro w0 w1 w0' h hle; simp [wfRun] at h; subst h; exact ⟨w1, rfl, hle⟩
+  | cons a rest ih =>
+    intro w0 w1 w0' h hle
+    simp only [wfRun] at h
+    cases hs : wfStep env a w0 with
+    | none => simp [hs] at h
+    | some wm =>
+      simp only [hs] at h
+      obtain ⟨wm1, hs1, hle1⟩ := wfStep_mono env a w0 w1 wm hs hle
+      obtain ⟨w1', hr1, hle'⟩ := ih wm wm1 w0' h hle1
+      exact ⟨w1', by simp [wfRun, hs1, hr1], hle'⟩
+
+theorem wfBal_append (env : Env) (p q : List Act) (hp : wfBal env p = true) (hq : wfBal env q = true) :
+    wfBal env (p ++ q) = true := by
+  unfold wfBal at *
+  cases h1 : wfRun env p initWf with
+  | none => simp [h1] at hp
+  | some w1 =>
+    simp only [h1, Bool.and_eq_true, Bool.not_eq_true'] at hp
+    cases h2 : wfRun env q initWf with
+    | none => simp [h2] at hq
+    | some w2 =>
+      simp only [h2, Bool.and_eq_true, Bool.not_eq_true'] at hq
+      have hle : WfLe initWf w1 := ⟨by simp [initWf, hp.1], by simp [initWf, hp.2], by simp [initWf]⟩
+      obtain ⟨w', hr, hle'⟩ := wfRun_mono env q initWf w1 w2 h2 hle
+      rw [wfRun_append, h1]
+      simp only [Option.bind, hr, Bool.and_eq_true, Bool.not_eq_true']
+      exact ⟨by rw [← hle'.1]; exact hq.1, by rw [← hle'.2.1]; exact hq.2⟩
+
+theorem wfBal_flatMap (env : Env) {α : Type} (f : α → List Act) (l : List α) (h : ∀ x ∈ l, wfBal env (f x) = true) :
+    wfBal env (l.flatMap f) = true := by
+  induction l with
+  | nil => simp [wfBal, wfRun, initWf]
+  | cons x rest ih =>
+    rw [List.flatMap_cons]
+    exact wfBal_append env _ _ (h x (by simp)) (ih (fun y hy => h y (List.mem_cons_of_mem _ hy)))
+
+theorem wf_of_wfBal (env : Env) (p : List Act) (h : wfBal env p = true) : wf env p = true := by
+  unfold wfBal at h
+  unfold wf
+  cases h1 : wfRun env p initWf with
+  | none => simp [h1] at h
+  | some w => rfl
+
+/-! ### the environment read off the inventory is consistent -/
+
+open Fit.SharedInv in
+theorem envOfRows_ok (funcs : Array String) (ex : List Exception) (rows : List Row)
+    (hids : rows.map (·.id) = List.range rows.length) : EnvOK (envOfRows funcs ex rows) := by
+  have hpos : ∀ (i : Nat) (row : Row), rows[i]? = some row → row.id = i := by
+    intro i row h
+    have h1 : (rows.map (·.id))[i]? = some row.id := by simp [List.getElem?_map, h]
+    rw [hids] at h1
+    have hi : i < rows.length := by
+      rcases Nat.lt_or_ge i rows.length with h' | h'
+      · exact h'
+      · rw [List.getElem?_eq_none h'] at h; cases h
+    rw [List.getElem?_range hi] at h1
+    exact (Option.some.inj h1).symm
+  refine ⟨?_, ?_, ?_⟩
+  · intro o r hr
+    simp only [envOfRows, List.mem_map, List.mem_filter] at hr
+    obtain ⟨row, ⟨hmem, hp⟩, hid⟩ := hr
+    obtain ⟨i, hi, hget⟩ := List.getElem_of_mem hmem
+    have hget' : rows[i]? = some row := by rw [List.getElem?_eq_getElem hi, hget]
+    have : row.id = i := hpos i row hget'
+    have hri : r = i := by rw [← hid, this]
+    subst hri
+    simp only [envOfRows, hget']
+    simp only [Bool.and_eq_true, Bool.not_eq_true', beq_iff_eq] at hp
+    simp [hp.1, hp.2]
+  · intro o r hr
+    simp only [envOfRows] at hr
+    cases hrow : rows[r]? with
+    | none => simp [hrow] at hr
+    | some row =>
+      simp only [hrow] at hr
+      simp only [envOfRows, List.mem_map, List.mem_filter]
+      refine ⟨row, ⟨List.mem_of_getElem? hrow, ?_⟩, hpos r row hrow⟩
+      by_cases hc : (row.cat == .pool || row.cat == .once || row.cat == .mutex) = true
+      · simp [hc] at hr
+      · simp only [hc, Bool.false_eq_true, if_false] at hr
+        simp [hc, hr]
+  · intro o
+    simp only [envOfRows]
+    have hsub : ((rows.filter fun row =>
+        !(row.cat == .pool || row.cat == .once || row.cat == .mutex) && row.onceOf == some o).map (·.id)).Sublist
+        (rows.map (·.id)) := List.Sublist.map _ List.filter_sublist
+    refine List.Nodup.sublist hsub ?_
+    rw [hids]; exact List.nodup_range
+
 end Fit.Shared
